@@ -37,19 +37,19 @@ type Input struct {
 }
 
 type Scn struct {
-	Kind    string  `json:"kind"`
-	Decckm  bool    `json:"decckm"`
-	Deckpam bool    `json:"deckpam"`
-	Paste   bool    `json:"paste"`
-	M1000   bool    `json:"m1000"`
-	M1002   bool    `json:"m1002"`
-	M1003   bool    `json:"m1003"`
-	M1006   bool    `json:"m1006"`
+	Kind    string `json:"kind"`
+	Decckm  bool   `json:"decckm"`
+	Deckpam bool   `json:"deckpam"`
+	Paste   bool   `json:"paste"`
+	M1000   bool   `json:"m1000"`
+	M1002   bool   `json:"m1002"`
+	M1003   bool   `json:"m1003"`
+	M1006   bool   `json:"m1006"`
 	// Form: how the child reaches the configuration. 0 = one DECSET/DECRST per
 	// mode; 1 = every mode set first, then the configuration; 2 = every mode
 	// reset first, then the private modes to set in one CSI ? a;b;c h
-	Form int `json:"form,omitempty"`
-	Inputs  []Input `json:"inputs"`
+	Form   int     `json:"form,omitempty"`
+	Inputs []Input `json:"inputs"`
 }
 
 type Ctx struct {
@@ -473,7 +473,7 @@ func Run(ctx *Ctx, sc *Scn) (evs []trace.Ev, note string) {
 			}
 			atomic.AddInt64(&ctx.NMouse, 1)
 			evs = append(evs, trace.Ev{"ev": "mouse", "i": i,
-				"what": fmt.Sprintf("mouse:%s:button=%d:modes=%d%d%d%d", in.MType, in.Button, b2i(sc.M1000), b2i(sc.M1002), b2i(sc.M1003), b2i(sc.M1006)),
+				"what":   fmt.Sprintf("mouse:%s:button=%d:modes=%d%d%d%d", in.MType, in.Button, b2i(sc.M1000), b2i(sc.M1002), b2i(sc.M1003), b2i(sc.M1006)),
 				"button": in.Button, "type": in.MType, "col": in.Col, "row": in.Row, "mods": in.Mods,
 				"m1000": sc.M1000, "m1002": sc.M1002, "m1003": sc.M1003, "m1006": sc.M1006, "bytes": ints(b), "sgr": sgr, "dec": dec})
 		}
